@@ -27,3 +27,25 @@ Print Assumptions C20_arrows_and_many.
 Theorem C20_worklist : forall tasks x, In x (trav (total_size tasks) tasks) <-> ReachD tasks x.
 Proof. exact (fun tasks => trav_spec (total_size tasks) tasks (le_n _)). Qed.
 Print Assumptions C20_worklist.
+
+(* ---- the text itself (diagram_task_structure and its helpers, Model/DiagramText.v; the model's lines are compared
+   character for character with what build_task_diagram returns) *)
+Require Import LT.Model.DiagramText LT.Proofs.DiagramTextProofs.
+
+(* For any list of tasks and whatever typing says about the types: the class lines of the text are the reachable task
+   types, each exactly once; each block carries its run line and one line per parameter; the arrow lines are, one to one,
+   the (dependent type, parameter, dependency type) combinations of C20_arrows_and_many, each exactly once, marked "many"
+   as the structure says. *)
+Theorem C20_text : forall info dir tasks,
+  let ts := build tasks in
+  let arrows := flat_map (fun e => map (fun r => (fst e, fst r, snd r)) (snd e)) ts in
+  pick class_of (render info dir ts) = map (fun A => ti_name (info A)) (map fst ts) /\
+  NoDup (map fst ts) /\ (forall A, In A (map fst ts) <-> exists t, ReachD tasks t /\ task_type t = A) /\
+  (forall A, In A (map fst ts) -> In (LRun (ti_name (info A)) (ti_run (info A))) (render info dir ts) /\
+     forall f, In f (ti_fields (info A)) -> In (LField (ti_name (info A)) (fst f) (snd f)) (render info dir ts)) /\
+  pick arrow_of (render info dir ts) =
+    map (fun a => (ti_name (info (fst (fst a))), snd a, ti_name (info (snd (snd (fst a)))), fst (snd (fst a)))) arrows /\
+  NoDup (map fst arrows) /\
+  (forall A p B m, In (A, (p, B), m) arrows <-> sem ts A (p, B) = Some m).
+Proof. exact text_of_build. Qed.
+Print Assumptions C20_text.
